@@ -156,12 +156,18 @@ func ServerConfig(certs ...tls.Certificate) *tls.Config {
 	if len(certs) == 0 {
 		certs = []tls.Certificate{Fix().ECDSA}
 	}
-	return &tls.Config{
+	c := &tls.Config{
 		Certificates: certs,
 		Time:         FixedTime,
 		MinVersion:   tls.VersionTLS10,
 		MaxVersion:   tls.VersionTLS13,
 	}
+	// explicit ticket keys: Run clones the Config per connection, and lazily generated
+	// automatic keys would differ between clones (no resumption across connections)
+	var k [32]byte
+	copy(k[:], "verif harness session ticket key")
+	c.SetSessionTicketKeys([][32]byte{k})
+	return c
 }
 
 // ClientConfig returns a fresh client Config trusting the harness CA.
